@@ -19,7 +19,8 @@ THEOREMS = ["C08.no_spurious_success", "C08.conservation", "C08.forever_waiter_r
 
 def run(ctx):
     ctx.proof("DispatchVerif.Props.C08", THEOREMS)
-    ctx.assumptions += ["the kernel semaphore is a counting semaphore; a timed kernel wait fails only after its deadline"]
+    ctx.assumptions += ["the kernel semaphore is a counting semaphore; a timed kernel wait fails only after its deadline",
+                        "the wall clock is not stepped forward during a timed wait: the POSIX back end hands sem_timedwait an absolute CLOCK_REALTIME deadline, also for uptime / monotonic timeouts (a step would end the wait early; outside the property's quantifier over call histories)"]
     h = ctx.harness("tr_sema")
     drv = ctx.driver()
     cfg = [(6, 400, 2), (8, 300, 0), (4, 600, 1), (12, 200, 0)] if not ctx.thorough else [(6, 4000, 2), (8, 3000, 0), (4, 6000, 1), (12, 2000, 0), (16, 1500, 3), (2, 6000, 0), (3, 5000, 1)]
